@@ -148,9 +148,10 @@ def _split_exact_body(mk, T, sizes, left, right, kw, absorb, wl):
         mk.same("number of tensors", tn.num_tensors, 3 if absorb in (None, "U,s,VH") else 2)
         mk.eq("contraction of factors == input", ref.tn_dense(tn, T.inds), T.data)
         if ill_defined():
-            mk.note("library warned 'not well-defined' for this shape: isometry goals skipped (documented limitation)")
+            mk.note("library warned 'not well-defined' for this shape (documented limitation): no isometric factor is promised, "
+                    "but a factor that IS flagged must still be an isometry (third round: polar factors of wide / tall inputs were flagged - fixed)")
         for t in tn:
-            if t.left_inds is not None and not ill_defined():
+            if t.left_inds is not None:
                 mk.same("isometry flag names existing labels", set(t.left_inds) <= set(t.inds), True)
                 _isometry_goal(mk, f"flagged tensor isometric over {tuple(t.left_inds)}", t, tuple(t.left_inds))
         # tensors / arrays forms agree with the network form
